@@ -53,7 +53,10 @@ SPEC = 'ufn("vt.spec", ' + VT + ', ' + VT + ', ret="Bool")'
 def contracts():
     cs = []
     # ---- _is_specialization_of -----------------------------------------
-    for keys in ((), ('k',), ('k', 'm')):
+    for keys in ((), ('k',), ('k', 'm'), ('m', 'k')):
+        # (last variant: the two candidates declare the SAME keyword names
+        # in a different order - parameters are paired by name)
+        keys2 = keys if keys != ('m', 'k') else ('k', 'm')
         a1, a2 = 'mapping1[0]', 'mapping2[0]'
         better = ['exists(range(0, min(len(%s), len(%s))), lambda j: %s)' % (
             a1, a2, SPEC % (a1 + '[j]', a2 + '[j]'))]
@@ -66,9 +69,10 @@ def contracts():
                                  'mapping1[1]["%s"]' % k))
         cs.append(Contract(
             M + '_is_specialization_of',
-            name='runner._is_specialization_of/kw=%d' % len(keys),
+            name='runner._is_specialization_of/kw=%d%s' % (
+                len(keys), '/reordered' if keys != keys2 else ''),
             params=dict(mapping1=pairof(TSeq(TVal), kwmap(keys)),
-                        mapping2=pairof(TSeq(TVal), kwmap(keys))),
+                        mapping2=pairof(TSeq(TVal), kwmap(keys2))),
             ensures=[
                 # m1 is a specialization of m2 iff it is nowhere less
                 # specific and somewhere more specific (positional AND
